@@ -8,7 +8,7 @@ from .common import analysis, tokens, ends_in_raise
 from .c05 import generators, gen_shape, block_reader_shape
 
 PROP = "C06"
-TECHNIQUE = "exception-handler inventory over the call graph (which handler may swallow which exception around which stream read); CFG path rules: clean-EOF-only-before-consumption, payload-before-yield dominance, sync comparison on every loop round"
+TECHNIQUE = "exception-handler inventory over the call graph (which handler may swallow which exception around which stream read); CFG path rules: clean-EOF-only-before-consumption, payload-before-yield dominance, sync comparison on every loop round; who-may-read census of raw stream reads outside the decoder"
 LEVEL_TEXT = (
     "Static analysis: every except handler in the package is inventoried with the exceptions it can match, what its try body can "
     "transitively reach on the call graph and whether it completes normally; only the two block-count handlers may end iteration on "
